@@ -42,6 +42,8 @@ def run(prog, res):
   _v4(prog, res)
   _i1(prog, res)
   _i2(prog, res)
+  _v8(prog, res)
+  res.floor('V8', 2)
   fns = []
   for m in ('conditional_pwl_calibration', 'conditional_cdf', 'cdf_layer'):
     fns += [f for f in prog.module(m).all_functions() if f.parent is None]
@@ -477,3 +479,118 @@ def _i2(prog, res):
       probs += range_factor(rg, 'output')
     return probs
   report('missing', 'missing inputs -> missing output in [min, max]', missing)
+
+
+# ---------------------------------------------------------------------------
+def _v8(prog, res):
+  """V8 - validator / implementation agreement on the broadcast forms of the
+  parameter tensors (Engler's contradicting beliefs).  pwl_calibration_fn
+  normalises a rank-2 parameter tensor to rank 3 and tiles a unit axis of
+  size 1 when units > 1; a tile branch that no tensor accepted by
+  _verify_pwl_calibration can reach means one of the two is wrong (the
+  docstring lists `(1 or batch_size, 1 or units, size)`).  States: units in
+  {1, 3} x rank in {2, 3} x unit axis in {1, units, other}; the validator's
+  rank / unit-axis tests and the implementation's branch tests are evaluated
+  concretely on each state."""
+  import ast as _ast
+  val = prog.function('conditional_pwl_calibration._verify_pwl_calibration')
+  fn = prog.function('conditional_pwl_calibration.pwl_calibration_fn')
+  res.analysed(val, fn)
+  for pname, local in (('keypoint_output_parameters', 'kernel_outputs'),
+                       ('keypoint_input_parameters',
+                        'keypoint_input_parameters')):
+    # validator tests that read only the rank / unit axis of pname and units
+    vtests = []
+    for st in val.node.body:
+      if isinstance(st, _ast.If) and any(isinstance(x, _ast.Raise)
+                                         for x in st.body):
+        reads = names_read(st.test)
+        if pname in {r.split('.')[0] for r in reads} and {
+            r for r in reads if not r.startswith(pname)} <= {'units', 'len'}:
+          txt = norm_text(st.test)
+          if 'shape[-1]' in txt or 'None' in txt:
+            continue
+          vtests.append(st.test)
+    # implementation: tile branches on the local name
+    tiles = []
+    for st in _ast.walk(fn.node):
+      if isinstance(st, _ast.If) and any(
+          isinstance(c, _ast.Call) and prog.ext_name(fn.module, c.func) ==
+          'tf.tile' for x in st.body for c in _ast.walk(x)):
+        if local in {r.split('.')[0] for r in names_read(st.test)}:
+          tiles.append(st)
+    if not tiles:
+      raise AnalysisError('pwl_calibration_fn: no tile branch for %s' % local)
+
+    def ev(e, st_):
+      if isinstance(e, _ast.BoolOp):
+        vs = [ev(v, st_) for v in e.values]
+        return all(vs) if isinstance(e.op, _ast.And) else any(vs)
+      if isinstance(e, _ast.UnaryOp) and isinstance(e.op, _ast.Not):
+        return not ev(e.operand, st_)
+      if isinstance(e, _ast.Compare) and len(e.ops) == 1:
+        a, b = ev(e.left, st_), ev(e.comparators[0], st_)
+        op = e.ops[0]
+        if isinstance(op, (_ast.In, _ast.NotIn)):
+          hit = a in b
+          return hit if isinstance(op, _ast.In) else not hit
+        return {_ast.Eq: a == b, _ast.NotEq: a != b, _ast.Gt: a > b,
+                _ast.Lt: a < b, _ast.GtE: a >= b, _ast.LtE: a <= b}[type(op)]
+      if isinstance(e, _ast.Constant):
+        return e.value
+      if isinstance(e, (_ast.Tuple, _ast.List)):
+        return tuple(ev(x, st_) for x in e.elts)
+      t = norm_text(e).replace(' ', '')
+      if t == 'units':
+        return st_['units']
+      if t in ('len(%s.shape)' % pname, 'len(%s.shape)' % local):
+        return st_['rank']
+      if t in ('%s.shape[1]' % pname, '%s.shape[1]' % local):
+        if st_['rank'] == 2:
+          raise AnalysisError('unit axis of a rank-2 tensor read')
+        return st_['axis']
+      raise AnalysisError('V8: cannot evaluate `%s`' % t)
+
+    reach = {id(t): [] for t in tiles}
+    n_acc = 0
+    for units in (1, 3):
+      for rank in (2, 3):
+        for axis in ((None,) if rank == 2 else (1, units, 5)):
+          st_ = {'units': units, 'rank': rank, 'axis': axis}
+          try:
+            rejected = any(ev(t, st_) for t in vtests)
+          except AnalysisError:
+            rejected = False
+          if rejected:
+            continue
+          n_acc += 1
+          # normalisation rank 2 -> (batch, 1, size)
+          st2 = dict(st_)
+          if rank == 2:
+            st2.update(rank=3, axis=1)
+          for t in tiles:
+            if ev(t.test, st2):
+              reach[id(t)].append(st_)
+    for t in tiles:
+      three = [s for s in reach[id(t)] if s['rank'] == 3]
+      key = 'pwl_calibration_fn|%s|tile-reachable' % pname
+      # rank-3 tensors with a unit axis of 1 are the documented broadcast form
+      rank2 = [s for s in reach[id(t)] if s['rank'] == 2]
+      res.check(bool(three) or (bool(rank2) and not
+                                _units_gt1_rank2_rejected(vtests, ev, pname)),
+                'V8', key, fn.loc(t),
+                'the tile branch is reached by an accepted rank-3 tensor with '
+                'unit axis 1 (%d accepted states)' % n_acc,
+                'no rank-3 `%s` accepted by _verify_pwl_calibration reaches '
+                'the tile branch `%s`: the validator rejects the documented '
+                '(1 or batch_size, 1, size) form for units > 1 that the '
+                'implementation tiles' % (pname, norm_text(t.test)[:50]))
+
+
+def _units_gt1_rank2_rejected(vtests, ev, pname):
+  """True when rank-2 tensors are rejected for units > 1 (then only a rank-3
+  tensor can reach the tile branch)."""
+  try:
+    return any(ev(t, {'units': 3, 'rank': 2, 'axis': None}) for t in vtests)
+  except AnalysisError:
+    return False
